@@ -55,7 +55,8 @@ ASYNC_VARIANTS = ("coro", "agen")
 #  AG2 @asynccontextmanager with an inner `async with A` around its yield
 SYNC_KINDS = ("S", "Sw", "Sr", "Sq", "G", "Gw", "G2")
 ASYNC_KINDS = ("A", "Aw", "Ae", "Ax", "A0", "Ar", "AG", "AGw", "AG2")
-TARGETS = ("n", "v", "a", "s", "m")  # none / local name / attribute / subscript / name, expression over two lines
+# none / local name / attribute / subscript / name, expression over two lines / name, suspension inside the expression
+TARGETS = ("n", "v", "a", "s", "m", "y")
 
 MAX_VEC = 7          # branch vector length bound (c() answers False beyond it)
 STEP_CAP = 3000      # events per run before the run is aborted
@@ -81,6 +82,7 @@ class Abort(BaseException):
 #   ["try", body, [[exc, hbody], ...], orelse|None, final|None]   exc in "E1","E2","E12","any"
 #   ["for", body, orelse|None]      for i in R(2)
 #   ["while", body, orelse|None]    while c()
+#   ["while1", body]                while True: body; break   (matrix family only)
 #   ["if", body, orelse|None]       if c()
 #   ["match", [body, body]]         match c(): case True / case _
 #   leaves: ["susp"] ["ayield"] ["probe"] ["hold"] ["ret_c"] ["ret_v"] ["break"] ["continue"]
@@ -121,7 +123,7 @@ def _gen_items(rng, variant, is_async):
             kind = rng.choice(("A", "A", "A", "Aw", "Ae", "Ax", "A0", "Ar", "AG", "AGw", "AG2"))
         else:
             kind = rng.choice(("S", "S", "S", "Sw", "Sr", "Sq", "G", "Gw", "G2"))
-        items.append([kind, rng.choice(("n", "n", "n", "v", "v", "v", "v", "a", "s", "m"))])
+        items.append([kind, rng.choice(("n", "n", "n", "v", "v", "v", "v", "a", "s", "m", "y"))])
     return items
 
 
@@ -216,6 +218,9 @@ def _walk(block):
                 if b:
                     for x in _walk(b):
                         yield x
+        elif k == "while1":
+            for x in _walk(s[1]):
+                yield x
         elif k in ("for", "while", "if"):
             for x in _walk(s[1]):
                 yield x
@@ -259,7 +264,7 @@ def constructs(prog):
 
 # ---- matrix family: every way of leaving a with block x every surrounding construct -------
 MATRIX_OUTERS = ("none", "for", "while", "if", "else", "try_finally", "try_except", "in_except",
-                 "in_finally", "in_else", "with_S", "with_A", "match", "for_else")
+                 "in_finally", "in_else", "with_S", "with_A", "match", "for_else", "while1")
 MATRIX_EXITS = ("fall", "ret_c", "ret_v", "break", "continue", "raise_out", "raise_swallow",
                 "c_ret_c", "c_ret_v", "c_break", "c_continue", "c_raise", "c_ret_else_raise",
                 "try_ret", "try_except_last", "loop_last", "susp_last", "nested_ret")
@@ -267,10 +272,10 @@ MATRIX_EXITS = ("fall", "ret_c", "ret_v", "break", "continue", "raise_out", "rai
 
 def _matrix_items(variant):
     its = [[["S", "v"]], [["Sw", "n"]], [["G", "a"]], [["S", "n"], ["Sw", "v"]], [["G2", "v"]],
-           [["Sq", "n"]]]
+           [["Sq", "n"]], [["S", "v"], ["S", "y"]]]
     if variant in ASYNC_VARIANTS:
         its += [[["A", "v"]], [["Aw", "n"]], [["AG", "v"]], [["A", "n"], ["A0", "v"]],
-                [["Ax", "s"]], [["AG2", "n"]], [["AGw", "v"], ["Ae", "n"]]]
+                [["Ax", "s"]], [["AG2", "n"]], [["AGw", "v"], ["Ae", "n"]], [["A", "n"], ["A", "y"]]]
     return its
 
 
@@ -320,7 +325,9 @@ def matrix_programs(variants=VARIANTS):
                     tail, needs_loop, needs_catch = _matrix_exit(ex)
                     w = ["with", is_async, items, [["susp"]] + tail]
                     inner = [w, ["susp"]]
-                    if needs_loop and outer not in ("for", "while", "for_else"):
+                    if outer == "while1" and ex == "continue":
+                        continue          # would never terminate
+                    if needs_loop and outer not in ("for", "while", "for_else", "while1"):
                         inner = [["for", inner, None]]
                     if outer == "none":
                         body = inner
@@ -330,6 +337,8 @@ def matrix_programs(variants=VARIANTS):
                         body = [["for", inner, [["susp"]]]]
                     elif outer == "while":
                         body = [["while", inner, None]]
+                    elif outer == "while1":
+                        body = [["while1", inner]]
                     elif outer == "if":
                         body = [["if", inner, None]]
                     elif outer == "else":
@@ -456,7 +465,11 @@ class _Emit:
                 self.site += 1
                 self.sites[self.site] = [len(self.lines) + 1 + sum(p.count("\n") for p in parts), item_i, kind, bool(is_async)]
                 e = "M(%r, %d)" % (kind, self.site)
-                if tgt == "m":
+                if tgt == "y":
+                    # a suspension while the context expression is being evaluated (callable and
+                    # arguments sit on the value stack above the exit methods of earlier items)
+                    e = "M(%r, %d, 'main', %s) as x%d" % (kind, self.site, self.susp()[:-1].replace("r(", "r2(", 1) + ")", self.site)
+                elif tgt == "m":
                     e = "M(%r,\n%s        %d) as x%d" % (kind, ind, self.site, self.site)
                 elif tgt == "v":
                     e += " as x%d" % self.site
@@ -491,6 +504,11 @@ class _Emit:
             if s[2]:
                 L(ind + "else:")
                 self.block(s[2], ind + "    ")
+        elif k == "while1":
+            L(ind + "while True:")
+            self.block(s[1], ind + "    ")
+            if not (s[1] and _is_exit(s[1][-1])):
+                L(ind + "    break")
         elif k == "while":
             L(ind + "while c():")
             self.block(s[1], ind + "    ")
@@ -691,6 +709,11 @@ def _r(x):
     R = _CUR[0]
     R.tick()
     R.log.append(("recv", x))
+
+
+def _r2(x):
+    _r(x)
+    return x
 
 
 def _probe():
@@ -996,7 +1019,7 @@ def _make_async_gen_managers():
 _ag, _ag2 = _make_async_gen_managers()
 
 
-def M(kind, site, owner="main"):
+def M(kind, site, owner="main", *extra):
     R = _CUR[0]
     R.tick()
     R.serial += 1
@@ -1021,7 +1044,7 @@ def M(kind, site, owner="main"):
 
 
 def make_namespace():
-    return {"c": _c, "v": _v, "r": _r, "probe": _probe, "R": _R, "M": M, "E1": E1, "E2": E2,
+    return {"c": _c, "v": _v, "r": _r, "r2": _r2, "probe": _probe, "R": _R, "M": M, "E1": E1, "E2": E2,
             "trap": trap, "hold": _hold, "sn": _sn, "ns": _NS(), "d": _D(), "__name__": "progs_gen"}
 
 
@@ -1553,9 +1576,9 @@ TIERS = {
     # and reports truncated=True.
     # throw_every / throw_k / throw_runs: every n-th program is also resumed with throw(E1) at each
     # of its first throw_k suspensions, exploring up to throw_runs branch vectors each.
-    "quick": dict(special_stride=12, matrix_stride=41, enum={2: 1, 3: 12}, random=26, max_nodes=(6, 12), max_runs=24,
+    "quick": dict(special_stride=12, matrix_stride=53, enum={2: 1, 3: 12}, random=26, max_nodes=(6, 12), max_runs=24,
                   throw_every=3, throw_k=8, throw_runs=6, running_stride=4, deadline=36.0),
-    "thorough": dict(matrix_stride=2, enum={2: 1, 3: 1, 4: 8}, random=300, max_nodes=(5, 14), max_runs=48,
+    "thorough": dict(matrix_stride=3, enum={2: 1, 3: 1, 4: 8}, random=300, max_nodes=(5, 14), max_runs=48,
                      throw_every=2, throw_k=6, throw_runs=6, running_stride=4, deadline=440.0),
     "tiny": dict(special_stride=60, matrix_stride=211, enum={2: 4}, random=4, max_nodes=(5, 8), max_runs=8,
                  throw_every=4, throw_k=8, throw_runs=4, running_stride=1, deadline=20.0),
@@ -1704,6 +1727,7 @@ def leg_suspended(tier="quick", seed=0, mode="trickery", variants=VARIANTS, prog
     """[C01] every suspension point of every program/branch vector: Frame.contexts and
     lowlevel.contexts_active_in_frame equal the logged truth; no InspectionWarning."""
     t0 = time.time()
+    c0 = time.process_time()
     cfg = TIERS[tier]
     ll = _ll()
     col = Collector("suspended" if mode == "trickery" else "referents")
@@ -1719,13 +1743,14 @@ def leg_suspended(tier="quick", seed=0, mode="trickery", variants=VARIANTS, prog
     finally:
         if mode == "referents":
             ll.set_trickery_enabled(None)
-    return col.result(wall=round(time.time() - t0, 2), truncated=truncated, tier=tier, seed=seed, mode=mode)
+    return col.result(wall=round(time.time() - t0, 2), cpu=round(time.process_time() - c0, 2), truncated=truncated, tier=tier, seed=seed, mode=mode)
 
 
 def leg_running(tier="quick", seed=0, variants=VARIANTS, progs=None, shard=None, observer=None):
     """[C02] probes from call sites inside bodies and inside every enter/exit of the logging
     managers; the program's running frame is located in extract_since()/extract(StackSlice)."""
     t0 = time.time()
+    c0 = time.process_time()
     cfg = TIERS[tier]
     col = Collector("running")
     col.observer = observer
@@ -1761,7 +1786,7 @@ def leg_running(tier="quick", seed=0, variants=VARIANTS, progs=None, shard=None,
                             col.count("branch_vectors")
                             col.count("throw_runs")
                     explore(prog, k, cfg["throw_runs"], on_probe, None, visit_t)
-    return col.result(wall=round(time.time() - t0, 2), truncated=truncated, tier=tier, seed=seed)
+    return col.result(wall=round(time.time() - t0, 2), cpu=round(time.process_time() - c0, 2), truncated=truncated, tier=tier, seed=seed)
 
 
 # ---- C20 extras -----------------------------------------------------------------------------
